@@ -291,6 +291,10 @@ BUDGET_S = 6.0
 class Heap:
     def __init__(self, roots):
         self.obj, self.typ, self.recipe, self.muts = {}, {}, {}, {}
+        # unstable: state names generated by a counter that depends on the history (Regex.to_epsilon_nfa continues the
+        # regex's counter); diverged: such an object was mutated -- the deterministic choice of the mutated state /
+        # transition depends on the names, so the aged and the freshly rebuilt object are no longer comparable
+        self.unstable, self.diverged = set(), set()
         for i, (t, idx) in enumerate(roots, start=1):
             self.obj[i] = CATALOG[t][idx % len(CATALOG[t])]()
             self.typ[i] = t
@@ -352,6 +356,8 @@ def run_history(roots, hist, result_types):
         k, o, op = step["k"], step["o"], step["op"]
         ev = {"k": k, "o": o, "op": op, "kop": op}
         t = h.typ[o]
+        operands = [o] + ([step["o2"]] if "o2" in step else [])
+        incomparable = any(x in h.diverged for x in operands)
         if k == "query":
             derived = h.recipe[o][0] != "root"
             if derived and op in NAME_REVEALING:
@@ -415,7 +421,17 @@ def run_history(roots, hist, result_types):
             ev["desc"] = mutate(t, h.obj[o], op, n)
             h.muts[o].append((op, n))
             ans = fresh = exc = fexc = None
-        if k != "mutate":
+        if k in ("conv1", "conv2") and step["d"] in h.obj:
+            d = step["d"]
+            if any(x in h.unstable for x in operands) or (t == "regex" and op == "to_epsilon_nfa"):
+                h.unstable.add(d)
+            if incomparable:
+                h.diverged.add(d)
+        if k == "mutate" and o in h.unstable:
+            h.diverged.add(o)
+        if k != "mutate" and incomparable:
+            ev["incomparable"] = "operand with history-dependent generated names was mutated"
+        elif k != "mutate":
             if "Timeout" in (exc, fexc):
                 # a call too slow for the watchdog decides nothing about history effects; the history ends here
                 ev["inconclusive"] = "timeout"
